@@ -31,7 +31,7 @@ TCase ==
     /\ Ev.variant \in Variants
     /\ LET p == ToSet(Ev.faults)
            e == ToSet(Ev.eff)
-       IN  /\ p \in Plans(Ev.rpc)            \* the case is one TLC enumerated
+       IN  /\ InPlans(Ev.rpc, p)            \* the case is one TLC enumerated (= p \in Plans(Ev.rpc))
            /\ e \subseteq p
            /\ Ev.outcome \in Allowed(Ev.rpc, e)   \* ok | err only: a panic is never explained
            /\ rpc' = Ev.rpc /\ variant' = Ev.variant /\ plan' = e
